@@ -36,6 +36,7 @@ TRAILING_TAILS = ['\r', '\r\n', ' \r\n', '\n\n', '  ', '\t\n', '\n\r\n']
 TOKS = ['a', 'b', 'u', ' ', '\n', '\t', '...', '"', "'", MARK, ANSI_RED]
 ALLBITS = list(itertools.product([0, 1], repeat=5))
 NSHARDS = {'quick': 16, 'thorough': 16}
+RULE += (' Every fourth table is evaluated a second time on ONE state object whose flags are switched between the calls; every second end-to-end text is printed by two statements, the first without a want.')
 LENIENT = [0, 1, 2, 3]     # indices of the flags whose switching ON is a leniency
 
 
